@@ -280,8 +280,9 @@ class LinSolve(Module):
         # Update solver with new matrix
         self.solver.update(mat)
 
-        # Solution
-        self.u = self.solver.solve(rhs, x0=self.u)
+        # Solution (the previous one is only an initial guess if it belongs to a right-hand-side of the same shape)
+        x0 = self.u if np.shape(self.u) == np.shape(rhs) else None
+        self.u = self.solver.solve(rhs, x0=x0)
 
         return self.u
 
